@@ -100,6 +100,9 @@ Lookup(n, env, d) ==
     [] e.k = "val" -> R("ok", e.w, env, FALSE)
     [] e.k = "toks" -> IF d = 0 THEN R("err", Zero, env, FALSE)
                        ELSE LET p == Parse(e.toks) IN IF ~p.ok THEN R("err", Zero, env, FALSE) ELSE Eval(p.ast, env, d - 1)
+\* an error met after an operand whose value was C-undefined inherits the flag: whether the failing operand was evaluated at all
+\* (short-circuit, ?:) may have depended on that value
+WithUnd(r, u) == [r EXCEPT !.und = r.und \/ u]
 Eval(x, env, d) ==
   CASE x.k = "num" -> R("ok", x.w, env, FALSE)
     [] x.k = "ref" -> Lookup(x.n, env, d)
@@ -110,24 +113,24 @@ Eval(x, env, d) ==
          LET a == Eval(x.a, env, d) IN
          IF a.st = "err" THEN a
          ELSE IF x.op = "&&" THEN (IF IsZero(a.w) THEN R("ok", Zero, a.env, a.und)
-                                   ELSE LET b == Eval(x.b, a.env, d) IN IF b.st = "err" THEN b ELSE R("ok", Bool(~IsZero(b.w)), b.env, a.und \/ b.und))
+                                   ELSE LET b == Eval(x.b, a.env, d) IN IF b.st = "err" THEN WithUnd(b, a.und) ELSE R("ok", Bool(~IsZero(b.w)), b.env, a.und \/ b.und))
          ELSE IF x.op = "||" THEN (IF ~IsZero(a.w) THEN R("ok", One, a.env, a.und)
-                                   ELSE LET b == Eval(x.b, a.env, d) IN IF b.st = "err" THEN b ELSE R("ok", Bool(~IsZero(b.w)), b.env, a.und \/ b.und))
+                                   ELSE LET b == Eval(x.b, a.env, d) IN IF b.st = "err" THEN WithUnd(b, a.und) ELSE R("ok", Bool(~IsZero(b.w)), b.env, a.und \/ b.und))
          ELSE LET b == Eval(x.b, a.env, d) IN
-              IF b.st = "err" THEN b
+              IF b.st = "err" THEN WithUnd(b, a.und)
               ELSE IF x.op = "," THEN R("ok", b.w, b.env, a.und \/ b.und)
               ELSE LET r == ApplyBin(x.op, a.w, b.w) IN R(r[1], r[2], b.env, a.und \/ b.und \/ r[3])
     [] x.k = "cond" -> LET c == Eval(x.a, env, d) IN
                        IF c.st = "err" THEN c
-                       ELSE LET r == Eval(IF IsZero(c.w) THEN x.c ELSE x.b, c.env, d) IN IF r.st = "err" THEN r ELSE R("ok", r.w, r.env, c.und \/ r.und)
+                       ELSE LET r == Eval(IF IsZero(c.w) THEN x.c ELSE x.b, c.env, d) IN IF r.st = "err" THEN WithUnd(r, c.und) ELSE R("ok", r.w, r.env, c.und \/ r.und)
     [] x.k = "asg" ->
          IF x.op = "=" THEN LET r == Eval(x.a, env, d) IN IF r.st = "err" THEN r ELSE R("ok", r.w, Store(r.env, x.n, r.w), r.und)
          ELSE LET cur == Lookup(x.n, env, d) IN                \* the left side is read BEFORE the right side is evaluated (bash expassign)
               IF cur.st = "err" THEN cur
               ELSE LET r == Eval(x.a, cur.env, d) IN
-                   IF r.st = "err" THEN r
+                   IF r.st = "err" THEN WithUnd(r, cur.und)
                    ELSE LET v == ApplyBin(BaseOp(x.op), cur.w, r.w) IN
-                        IF v[1] = "err" THEN R("err", Zero, r.env, FALSE) ELSE R("ok", v[2], Store(r.env, x.n, v[2]), cur.und \/ r.und \/ v[3])
+                        IF v[1] = "err" THEN R("err", Zero, r.env, cur.und \/ r.und) ELSE R("ok", v[2], Store(r.env, x.n, v[2]), cur.und \/ r.und \/ v[3])
     [] x.k \in {"pre", "post"} ->
          LET cur == Lookup(x.n, env, d) IN
          IF cur.st = "err" THEN cur
